@@ -9,8 +9,10 @@ LEVEL_TEXT = ("no-raise and termination obligations (safe/*, dec/*, pre/*) of th
               "scan() as a whole are covered by a labelled bounded stand-in")
 LEVEL_NOTE = NOT_UNDER_CONTRACT + "; assumed raise-sets of library calls (binascii, int, codecs, regex) are listed in the evidence; A-rec"
 DESIGN_REF = "DESIGN.md 6 (C01)"
-FUNCTIONS = ENGINE_FUNCS + ["multidecoder.node.Node.flatten"] + SIMPLE_DECODERS + SHELL_FUNCS
+FUNCTIONS = ENGINE_FUNCS + ["multidecoder.node.Node.flatten", "multidecoder.xor_helper.apply_xor_key", "multidecoder.decoders.shell.find_cmd_strings"] + SIMPLE_DECODERS + SHELL_FUNCS
 EXCLUDE_CLAUSES = CORE_ONLY
 SELECT = [r"/safe/", r"/dec/", r"/pre/", r"/callsite/", r"/registry-call/", r"/raises/"]
 TRUSTED = [NOT_UNDER_CONTRACT]
 BOUNDED = [bounded_scan_total, bounded_decoder_raises]
+
+DEMOTED = {r"find_cmd_strings/safe/IndexError@L\d+:list index": "split[0] needs `the de-escaped match contains a non-blank byte` (a fact about caret_from over L(CMD_RE)) which z3 cannot derive; covered by the run-time stand-in"}
